@@ -123,8 +123,56 @@ def detect(name, props=None, tier="quick"):
     return name, out
 
 
+def report():
+    """seeded/RESULTS.md from RESULTS.json and the meta files"""
+    res = json.load(open(os.path.join(SEEDED, "RESULTS.json")))
+    rows = []
+    n_caught = n_proof = 0
+    names = sorted(os.path.basename(p) for p in glob.glob(os.path.join(SEEDED, "C*-*")))
+    for name in names:
+        meta = json.load(open(os.path.join(SEEDED, name, "meta.json")))
+        files = sorted(set(re.findall(r"^\+\+\+ b/src/pyimpspec/(\S+)", open(os.path.join(SEEDED, name, "patch.diff")).read(), flags=re.M)))
+        conf = meta.get("confirmation_by_orchestrator", {})
+        r = res.get(name, {})
+        cells = []
+        caught = False
+        by_proof = False
+        for tier in ("quick", "thorough"):
+            for prop, v in sorted(r.get(tier, {}).items()):
+                obs = [c.get("obligation") or c.get("line", "") for c in v.get("caught_by", [])]
+                proof = [o for o in obs if not o.startswith("bounded:")]
+                bnd = [o for o in obs if o.startswith("bounded:")]
+                und = [l for l in v.get("other_lines", []) if l.startswith("UNDECIDED")]
+                if v["exit"] == 1:
+                    caught = True
+                    by_proof = by_proof or bool(proof)
+                first = (proof or bnd or [""])[0]
+                first = re.sub(r"^C\d\d/", "", first)
+                cells.append(f"{tier} `./check {prop}`: exit {v['exit']}, {v['violations']} VIOLATION line(s)"
+                             + (f"; proof layer: `{first[:170]}`" if proof else (f"; bounded stand-in only: `{first[:120]}`" if bnd else ""))
+                             + (f"; {len(und)}+ obligations undecided (the changed code left the verifier's subset)" if und and not proof else ""))
+        n_caught += caught
+        n_proof += by_proof
+        what = meta.get("what_changed", "").replace("|", "/").replace("\n", " ")
+        rows.append(f"| {name} | {', '.join(files)} | {what[:260]}{'…' if len(what) > 260 else ''} | {'yes' if conf.get('confirmed') else 'NO'} | {'**caught**' if caught else '**MISSED**'} | {'<br>'.join(cells) or 'not run'} |")
+    out = ["# Seeded changes and what the checks say about them", "",
+           "Produced by `tools/seeded.py report` from `seeded/RESULTS.json` (written by `tools/seeded.py detect`, which applies each patch to a scratch",
+           "worktree outside /repo and /verif, runs `./check <property>` with `VERIF_REPO` pointing at it, and removes the worktree).",
+           "Every change was written by a sub-agent that saw only the property text and its own scratch worktree; `confirmed` = I applied it in a scratch",
+           "worktree myself: the demo exits 0 without and non-zero with the change, the package imports, and none of the pinned passing tests is lost.", "",
+           f"**{n_caught} of {len(names)} caught** (exit 1 with a VIOLATION line); for {n_proof} of them a proof-layer obligation that is discharged on the unchanged tree is refuted,",
+           "for the others the violation comes from the labelled bounded stand-in (often next to obligations that became *undecided* because the changed code",
+           "uses constructs outside the verifier's subset).", "",
+           "| id | file(s) | change (author's description, truncated) | confirmed | verdict | which check catches it |", "|---|---|---|---|---|---|"] + rows
+    open(os.path.join(SEEDED, "RESULTS.md"), "w").write("\n".join(out) + "\n")
+    print(f"{n_caught}/{len(names)} caught, {n_proof} by the proof layer")
+
+
 def main():
     cmd = sys.argv[1]
+    if cmd == "report":
+        report()
+        return
     if cmd == "collect":
         collect(sys.argv[2:])
         return
